@@ -56,6 +56,39 @@ Lemma live_params_finish now dom doy seg_dur timescale o :
   else finish now seg_dur timescale o a0 (now - a0).
 Proof. cbn zeta. unfold live_params. destruct (_ =? 0); reflexivity. Qed.
 
+Lemma elapsed_eq now dom doy seg_dur timescale o :
+  l_elapsed (live_params now dom doy seg_dur timescale o) =
+  let a0 := resolve_ast now dom doy (o_start o) in
+  if now - a0 =? 0 then DAY else now - a0.
+Proof. rewrite live_params_finish. cbn zeta. destruct (_ =? 0); reflexivity. Qed.
+
+Lemma resolve_sym_age now dom doy s : 60 * SEC <= now -> calendar_ok dom doy ->
+  symbolic s = true -> 60 * SEC <= now - resolve_ast now dom doy s.
+Proof.
+  intros Hn (Hd & Hy) Hs. destruct s; try discriminate; unfold resolve_ast, floor_sec, day_start.
+  - unfold SEC in *; lia.
+  - destruct (_ <? _) eqn:E; unfold SEC, DAY in *; lia.
+  - destruct (_ <? _) eqn:E; unfold SEC, DAY in *; lia.
+  - destruct (_ <? _) eqn:E; unfold SEC, DAY in *; lia.
+  - unfold SEC, DEFAULT_DEPTH in *; lia.
+Qed.
+
+Lemma mup_eq now dom doy sd ts o :
+  l_mup (live_params now dom doy sd ts o) =
+  match o_mup o with
+  | None => Some (Z.max 1 (round_half_even (2 * sd) ts))
+  | Some p => if p <=? 0 then None else Some p
+  end.
+Proof. rewrite live_params_finish. cbn zeta. destruct (_ =? 0); reflexivity. Qed.
+
+Lemma publish_eq now dom doy sd ts o :
+  let LP := live_params now dom doy sd ts o in
+  l_publish LP = match l_mup LP with
+                 | None => floor_sec now
+                 | Some p => floor_sec (l_ast LP + l_elapsed LP / (p * SEC) * p * SEC)
+                 end.
+Proof. cbn zeta. rewrite live_params_finish. cbn zeta. destruct (_ =? 0); reflexivity. Qed.
+
 Lemma mup_pos seg_dur timescale o now a e p :
   l_mup (finish now seg_dur timescale o a e) = Some p -> 1 <= p.
 Proof.
@@ -159,12 +192,9 @@ Qed.
 (* symbolic start values always give a stream at least one minute old *)
 Theorem symbolic_age : symbolic (o_start o) = true -> 60 * SEC <= l_elapsed L.
 Proof.
-  intros Hsym. destruct Hcal as (Hd & Hy).
-  subst L. unfold live_params.
-  destruct (now - resolve_ast now dom doy (o_start o) =? 0) eqn:E0; cbn [l_elapsed];
-    [unfold SEC, DAY; lia|].
-  destruct (o_start o); try discriminate; unf;
-    try match goal with |- context [if ?b then _ else _] => destruct b eqn:? end; lia.
+  intros Hsym. subst L. rewrite elapsed_eq. cbn zeta.
+  pose proof (resolve_sym_age now dom doy (o_start o) Hnow Hcal Hsym) as H.
+  destruct (now - resolve_ast now dom doy (o_start o) =? 0); [unfold SEC, DAY; lia | exact H].
 Qed.
 
 End Live.
@@ -185,17 +215,11 @@ Proof.
   destruct (ast_elapsed now1 dom1 doy1 seg_dur timescale o Hn1 Hc1 Hs1) as (He1 & Hp1 & Hw1).
   destruct (ast_elapsed now2 dom2 doy2 seg_dur timescale o Hn2 Hc2 Hs2) as (He2 & Hp2 & Hw2).
   fold L1 in He1, Hp1, Hw1. fold L2 in He2, Hp2, Hw2.
-  assert (Hm : l_mup L1 = l_mup L2) by reflexivity.
-  assert (Hpub : forall now dom doy,
-     l_publish (live_params now dom doy seg_dur timescale o) =
-     match l_mup (live_params now dom doy seg_dur timescale o) with
-     | None => floor_sec now
-     | Some p => floor_sec (l_ast (live_params now dom doy seg_dur timescale o) +
-                   l_elapsed (live_params now dom doy seg_dur timescale o) / (p * SEC) * p * SEC)
-     end).
-  { intros now dom doy. unfold live_params.
-    destruct (now - resolve_ast now dom doy (o_start o) =? 0); reflexivity. }
-  rewrite (Hpub now1 dom1 doy1), (Hpub now2 dom2 doy2). fold L1 L2. rewrite <- Hm.
+  assert (Hm : l_mup L1 = l_mup L2) by (subst L1 L2; rewrite !mup_eq; reflexivity).
+  pose proof publish_eq as Hpub. cbn zeta in Hpub.
+  subst L1 L2. rewrite (Hpub now1 dom1 doy1 seg_dur timescale o), (Hpub now2 dom2 doy2 seg_dur timescale o).
+  set (L1 := live_params now1 dom1 doy1 seg_dur timescale o) in *.
+  set (L2 := live_params now2 dom2 doy2 seg_dur timescale o) in *. rewrite <- Hm.
   destruct (l_mup L1) as [p|] eqn:Emup.
   - assert (Hp : 1 <= p).
     { destruct (quantised now1 dom1 doy1 seg_dur timescale o Hn1 Hc1 Hs1 p Emup) as (H & _). exact H. }
@@ -219,7 +243,7 @@ Theorem same_day now1 now2 dom doy s :
   resolve_ast now1 dom doy s = resolve_ast now2 dom doy s.
 Proof.
   intros Hday H1 H2 (Hd & Hy) Hs.
-  destruct Hs as [->|[->|[->|->]]]; unfold resolve_ast; rewrite <- ?Hday.
+  destruct Hs as [-> | [-> | [-> | ->]]]; unfold resolve_ast; rewrite <- ?Hday.
   - reflexivity.
   - unfold floor_sec, day_start, SEC, DAY in *.
     destruct (now1 - now1 mod 1000000 - (now1 - now1 mod 86400000000) <? 60 * 1000000) eqn:E1;
